@@ -67,6 +67,9 @@ def run(ctx, w):
     c05.margin_rules(ctx, w, S, R)
     # ... and the positions / margins the primitives are handed stay in range: every handler preserves the state invariant
     shared.invariant_rule(ctx, w, S, R, "R16")
+    # the re-layout arithmetic itself (subtractions, slices, truncations) cannot panic on any small buffer / cursor / size change
+    from rules import c10 as _c10
+    _c10.resize_rule(ctx, w, S, "R17")
     # the slice / index operations of the row, scroll and edit primitives cannot panic for any position with col <= cols, row < rows and any count
     prims.row_primitives(ctx, w, S, "R11", spec=False)
     prims.scroll_primitives(ctx, w, S, "R12", spec=False)
